@@ -119,6 +119,13 @@ Definition rename_rows (o n : name) (l : list row) : list row :=
   map (fun r => if is_prefix o (r_name r)
                 then with_name (n ++ skipn (List.length o) (r_name r)) r else r) l.
 
+(* Mailbox.rename: "create any superior hierarchical names that are needed" *)
+Definition ensure_parent (st : state) (n : name) : state * result :=
+  match removelast n with
+  | [] => (st, OK)
+  | p => match find_row st p with Some _ => (st, OK) | None => create st p end
+  end.
+
 Definition rename (st : state) (o0 n : name) : state * result :=
   if negb (name_ok o0) || negb (name_ok n) then (st, NO)
   else let o := canon o0 in
@@ -141,12 +148,7 @@ Definition rename (st : state) (o0 n : name) : state * result :=
                else if negb (new_name_ok n) then (st, NO)
                else if belowb o n then (st, NO)
                else
-                 let p := removelast n in
-                 let r1 := match p with
-                           | [] => (st, OK)
-                           | _ :: _ => match find_row st p with Some _ => (st, OK) | None => create st p end
-                           end in
-                 match r1 with
+                 match ensure_parent st n with
                  | (st1, OK) => ({| rows := rename_rows o n (rows st1); vv_ctr := vv_ctr st1 |}, OK)
                  | (_, NO) => (st, NO)
                  end
@@ -168,6 +170,10 @@ Definition select (st : state) (n0 : name) : state * result :=
        | Some r => if r_nosel r then (st, NO) else (st, OK)
        end.
 
+(* the appended message gets next_uid *)
+Definition append_row (cid fl : Z) (r : row) : row :=
+  with_msgs (r_nuid r + 1) (r_msgs r ++ [{| m_uid := r_nuid r; m_cid := cid; m_flags := fl |}]) r.
+
 (* NOTE: APPEND to a \Noselect placeholder is outside the modelled domain (the code stores the
    message and then fails); the correspondence check does not send it *)
 Definition append (st : state) (n0 : name) (cid fl : Z) : state * result :=
@@ -177,10 +183,7 @@ Definition append (st : state) (n0 : name) (cid fl : Z) : state * result :=
        | None => (st, NO)
        | Some r =>
            if r_nosel r then (st, NO)
-           else ({| rows := update n (fun r => with_msgs (r_nuid r + 1)
-                                        (r_msgs r ++ [{| m_uid := r_nuid r; m_cid := cid; m_flags := fl |}]) r)
-                              (rows st);
-                    vv_ctr := vv_ctr st |}, OK)
+           else ({| rows := update n (append_row cid fl) (rows st); vv_ctr := vv_ctr st |}, OK)
        end.
 
 (* IMAPUserServer.find_all_folders at start-up: every RFC 6154 mailbox that is missing is created *)
